@@ -498,6 +498,7 @@ static void run_case(Run &r, const Case &c, bool fail_first = false)
 //   long:<fmt>:<flags>                                  long-token shapes
 //   mut:<fmt>:<flags>                                   seed document with <= 2 token mutations
 //   dsc:<style>                                         format description sweep (0..6 comment x 0..5 escape characters) + documents, see body_dsc
+//   dlen:0                                              every prefix of every format description in an exactly sized block, see body_dlen
 //   deep:<fmt>                                          10^3..10^5 nested sections / value-only lines, see body_deep
 //   reuse:<fmt>                                         two inputs through one parser_context, see body_reuse
 //   pad:<fmt>:<flags>                                   a run of n name characters (thorough: every n in 1..330) (as first name, or as value behind "b=") followed by every string
@@ -525,6 +526,7 @@ void mc_jobs(Tier t, std::vector<std::string> &jobs)
 	for (int st = 0; st < 5; ++st) jobs.push_back(fmt("dsc:%d", st));
 	{ int deepfmt[] = { 0, 4, 6 }; for (int fi : deepfmt) jobs.push_back(fmt("deep:%d", fi)); }
 	for (int fi = 0; fi < NFMT; ++fi) jobs.push_back(fmt("reuse:%d", fi));
+	jobs.push_back("dlen:0");
 }
 
 // ---- long tokens
@@ -685,6 +687,55 @@ static void body_pad(Run &r, Ctx &x, int fi, int ni, const std::vector<uint8_t> 
 }
 
 static int ev_record(void *ctx, const mpt::path *p, const mpt::value *val, int, int curr);
+static const char *DSTYLE[] = { "{*} = ", "[ ] = ", "<x> = ", "%x% = ", "{_} = " };
+static const char *DSTYLE_ID[] = { "pre", "sep", "enc", "encsame", "opt" };
+static const int NDSTYLE = 5;
+// ---- description length sweep (job "dlen"): every prefix (length 0..n) of every format description used in this file, handed over
+// in an exactly sized heap block: decoding must not read behind the terminator, positions the prefix does not reach keep their defaults
+static void body_dlen(Run &r, Ctx &x)
+{
+	warmup();
+	size_t which = x.choose(NFMT - 1 + NDSTYLE);
+	std::string full = which < (size_t) NFMT - 1 ? FMT[which + 1].str : DSTYLE[which - (NFMT - 1)];
+	size_t n = x.choose(full.size() + 1);
+	std::string d(full, 0, n);
+	char *str = (char *) malloc(n + 1); memcpy(str, d.c_str(), n + 1);
+	mpt::parser_format *pf = (mpt::parser_format *) malloc(sizeof(mpt::parser_format));
+	memset(pf, 0x5A, sizeof *pf);
+	const char *cls = n < 2 ? "shorter-than-type" : (n < 6 ? "partial-delimiters" : "full-delimiters");
+	std::string sig = std::string("parse_format|length|") + cls + "|";
+	std::string d0 = fmt("format description %s (%zu of %zu characters, exactly sized block)", show((const uint8_t *) d.data(), n).c_str(), n, full.size());
+	++r.states; ++r.transitions;
+	asan_error();
+	r.hint((sig + "decode").c_str());
+	int type = LIB(mpt::mpt_parse_format(pf, str));
+	bool asan = asan_error();
+	mpt::parser_format got = *pf; free(pf);
+	if (r.replaying) r.note("%s -> type '%c' sstart %02x send %02x ostart %02x assign %02x oend %02x esc %s com %s", d0.c_str(), type, got.sstart, got.send, got.ostart, got.assign, got.oend, hex(got.esc, 3).c_str(), hex(got.com, 4).c_str());
+	r.count(n < 2 ? "dlen:descriptions shorter than two characters" : "dlen:longer prefixes");
+	if (asan) { free(str); r.violation(sig + "asan", d0 + ": mpt_parse_format reads outside the description (AddressSanitizer)"); return; }
+	auto ch = [&](size_t i, uint8_t def) { return (uint8_t) (i < n ? (isspace((unsigned char) d[i]) ? 0 : d[i]) : def); };
+	if (type != (n > 1 ? d[1] : '*') || got.sstart != ch(0, '{') || got.send != ch(2, '}') || got.ostart != ch(3, 0) || got.assign != ch(4, '=') || got.oend != ch(5, 0)
+	    || (n <= 6 && (memcmp(got.com, "#\0\0\0", 4) || memcmp(got.esc, "\"'\0", 3)))) {
+		free(str); r.violation(sig + "wrong-fields", d0 + fmt(": decoded type '%c' sstart %02x send %02x ostart %02x assign %02x oend %02x esc %s com %s; characters the description does not contain must keep their defaults", type, got.sstart, got.send, got.ostart, got.assign, got.oend, hex(got.esc, 3).c_str(), hex(got.com, 4).c_str())); return; }
+	// the same description through mpt_parse_node (unknown type characters are refused with BadType)
+	const char *doc = "a = 1\n";
+	Src src((const uint8_t *) doc, strlen(doc), -2);
+	mpt::parser_context ctx; ctx.src.getc = src_getc; ctx.src.arg = &src; ctx.src.line = 1;
+	ledger_housekeeping(); size_t lbase = ledger_live();
+	mpt::node *root = LIB(mpt::mpt_node_new(0));
+	r.hint((sig + "parse_node").c_str());
+	++r.transitions;
+	int ret = LIB(mpt::mpt_parse_node(root, &ctx, str));
+	asan = asan_error();
+	LIB(mpt::mpt_node_clear(root));
+	free(str);
+	if (asan || asan_error()) { r.violation(sig + "asan", d0 + fmt(": mpt_parse_node(\"a = 1\") returned %d; AddressSanitizer reported an invalid memory access", ret)); return; }
+	if (ledger_live() != lbase + 1) { r.violation(sig + "leak", d0 + ": allocations survive clearing the target"); free(root); return; }
+	free(root);
+	r.count(ret < 0 ? "dlen:parse refused" : "dlen:parse accepted");
+}
+
 // ---- deep nesting (job "deep:<fmt>"): the depth of the tree is chosen by the input, nothing may recurse once per level
 // shapes: N unclosed sections (parse fails at end of input, the temporary tree of depth N is released), N sections opened
 // and closed again, N value-only lines; targets: empty root, the nested populated root, a root that already holds the
@@ -806,9 +857,6 @@ static void body_reuse(Run &r, Ctx &x, int fi, const std::vector<uint8_t> &tok)
 //  (ii) every document over {first/last accepted comment char, first/last accepted escape char, first surplus chars, 'a', assign,
 //      newline, blank} (optionally behind "a=") parses to the same result and event sequence as with a reduced description that
 //      lists only the first and last accepted characters.
-static const char *DSTYLE[] = { "{*} = ", "[ ] = ", "<x> = ", "%x% = ", "{_} = " };
-static const char *DSTYLE_ID[] = { "pre", "sep", "enc", "encsame", "opt" };
-static const int NDSTYLE = 5;
 static const char DCOM[] = "#!&@~^", DESC[] = "`\"'|$";
 static uint64_t g_dsc_desc, g_dsc_docs, g_dsc_within, g_dsc_surplus_c, g_dsc_surplus_e, g_dsc_used_c, g_dsc_used_e, g_dsc_events;
 static int ev_record(void *ctx, const mpt::path *p, const mpt::value *val, int, int curr)
@@ -928,6 +976,7 @@ static void body(Run &r, Ctx &x, const Job &j)
 	else if (j.kind == "pad") body_pad(r, x, j.fi, j.ni, j.tok);
 	else if (j.kind == "dsc") body_dsc(r, x, j.fi);
 	else if (j.kind == "deep") body_deep(r, x, j.fi);
+	else if (j.kind == "dlen") body_dlen(r, x);
 	else if (j.kind == "reuse") body_reuse(r, x, j.fi, j.tok);
 	else body_mut(r, x, j.fi, j.ni, j.tok);
 }
@@ -940,6 +989,7 @@ static const char *required[] = {
 	"long:section name ~256", "long:option name ~256", "long:value ~256", "long:quoted value ~65536", "long:section name ~65536", "long:option name ~65536", "long:value ~65536", "long:comment ~65536", "long:anonymous value ~65536",
 	"long:accepted", "long:refused", "pad:buffer fill sweep cases",
 	"dsc:descriptions within capacity", "dsc:descriptions with surplus comment characters", "dsc:descriptions with surplus escape characters",
+	"dlen:descriptions shorter than two characters", "dlen:longer prefixes", "dlen:parse accepted",
 	"deep:cases", "deep:failed parse releases a deep temporary tree", "deep:successful parse, deep tree cleared", "deep:target holds the same deep document",
 	"reuse:second parse after a failed one", "reuse:second parse after a successful one", "reuse:second parse with events",
 	"dsc:documents compared", "dsc:documents using a first/last comment character", "dsc:documents using a first/last escape character", "dsc:documents with events",
